@@ -119,6 +119,25 @@ int main (int argc, char** argv)
     out ("var", var); out_vec<2> ("cv", cv); out_m ("cm", cm);
     Matrix<3,3,double> r; compose (r, var, cv, cm); out_m ("r", r); });
 
+  // mixed element types (single with double precision, real with complex): conversions and the mixed operations that compile
+  fn ("mixed_vec_add_f_d", [] { Vector<3,double> a = vec_in<3> ("a"), b = vec_in<3> ("b"); Vector<3,float> af; for (unsigned i=0; i<3; i++) af[i] = float (a[i]);
+    Vector<3,double> g = af + b, h = b + af; out_vec<3> ("g", g); out_vec<3> ("h", h);
+    Vector<3,double> w; for (unsigned i=0; i<3; i++) w[i] = double (af[i]) + b[i]; out_vec<3> ("w", w); out_vec<3> ("w2", w);
+    if (!symbolic) for (unsigned i=0; i<3; i++) { expect ("single + double vector", g[i], w[i], 1e-6); expect ("double + single vector", h[i], w[i], 1e-6); } });
+  fn ("mixed_mat_add_d_f", [] { Matrix<2,2,double> a = mat_in<2,2> ("a"), b = mat_in<2,2> ("b"); Matrix<2,2,float> bf; for (unsigned i=0; i<2; i++) for (unsigned j=0; j<2; j++) bf[i][j] = float (b[i][j]);
+    Matrix<2,2,double> g = a + bf; out_m ("g", g); Matrix<2,2,double> w; for (unsigned i=0; i<2; i++) for (unsigned j=0; j<2; j++) w[i][j] = a[i][j] + double (bf[i][j]); out_m ("w", w);
+    if (!symbolic) for (unsigned i=0; i<2; i++) for (unsigned j=0; j<2; j++) expect ("double + single matrix", g[i][j], w[i][j], 1e-6); });
+  fn ("mixed_scale_vec_f", [] { Vector<3,double> a = vec_in<3> ("a"); double r = in ("r"); Vector<3,float> af; for (unsigned i=0; i<3; i++) af[i] = float (a[i]);
+    Vector<3,double> g = r * af; out_vec<3> ("g", g); Vector<3,double> w; for (unsigned i=0; i<3; i++) w[i] = r * double (af[i]); out_vec<3> ("w", w);
+    if (!symbolic) for (unsigned i=0; i<3; i++) expect ("double * single vector", g[i], w[i], 1e-6); });
+  fn ("mixed_mat_vec_d_c", [] { Matrix<2,2,double> a = mat_in<2,2> ("a"); Vector<2,cd> v; v[0] = complex_in ("v0"); v[1] = complex_in ("v1");
+    Vector<2,cd> g = a * v; out ("g0", g[0]); out ("g1", g[1]);
+    cd w0 = a[0][0] * v[0] + a[0][1] * v[1], w1 = a[1][0] * v[0] + a[1][1] * v[1]; out ("w0", w0); out ("w1", w1);
+    if (!symbolic) { expect ("real matrix times complex vector, element 0", g[0], w0); expect ("element 1", g[1], w1); } });
+  fn ("promote_vec_mat_d_c", [] { Vector<3,double> a = vec_in<3> ("a"); Matrix<2,2,double> m = mat_in<2,2> ("m"); Vector<3,cd> ac (a); Matrix<2,2,cd> mc (m);
+    for (unsigned i=0; i<3; i++) out (nm ("g", i), ac[i]); out_cm ("gm", mc);
+    for (unsigned i=0; i<3; i++) out (nm ("w", i), cd (a[i])); for (unsigned i=0; i<2; i++) for (unsigned j=0; j<2; j++) out (nm ("wm", i, j), cd (m[i][j]));
+    if (!symbolic) { for (unsigned i=0; i<3; i++) expect ("complex vector from a real vector", ac[i], cd (a[i])); for (unsigned i=0; i<2; i++) for (unsigned j=0; j<2; j++) expect ("complex matrix from a real matrix", mc[i][j], cd (m[i][j])); } });
   // Gauss-Jordan inverse: every pivot path at N = 2 (real), with inv(A) A and A inv(A)
   fn_paths ("gj2", [] { Matrix<2,2,double> a = mat_in<2,2> ("a");
     Matrix<2,2,double> ai = inv (a);
